@@ -83,6 +83,26 @@ pub fn mk_nulls<T: ArrowPrimitiveType>(vals: &[T::Native], valid: &[bool], dt: &
     if off > 0 { a.slice(off, vals.len()) } else { a }
 }
 
+pub fn kernel_name(k: Kernel) -> &'static str {
+    use arrow_arith::numeric as n;
+    let names: [(Kernel, &'static str); 8] = [(n::add, "add"), (n::sub, "sub"), (n::mul, "mul"), (n::div, "div"), (n::rem, "rem"), (n::add_wrapping, "add_wrapping"), (n::sub_wrapping, "sub_wrapping"), (n::mul_wrapping, "mul_wrapping")];
+    names.iter().find(|(f, _)| *f as usize == k as usize).map(|x| x.1).unwrap_or("?")
+}
+pub fn kernel_by_name(name: &str) -> Option<Kernel> {
+    use arrow_arith::numeric as n;
+    Some(match name {
+        "add" => n::add,
+        "sub" => n::sub,
+        "mul" => n::mul,
+        "div" => n::div,
+        "rem" => n::rem,
+        "add_wrapping" => n::add_wrapping,
+        "sub_wrapping" => n::sub_wrapping,
+        "mul_wrapping" => n::mul_wrapping,
+        _ => return None,
+    })
+}
+
 pub fn err_kind(e: &ArrowError) -> &'static str {
     match e {
         ArrowError::DivideByZero => "DivideByZero",
@@ -154,8 +174,9 @@ pub fn inspect<O: ArrowPrimitiveType>(arr: &ArrayRef, odt: &DataType, n: usize) 
 }
 
 fn case_json<L: ArrowPrimitiveType, R: ArrowPrimitiveType, O: ArrowPrimitiveType>(spec: &BinSpec<L, R, O>, lay: Layout, a: L::Native, b: R::Native) -> Value {
-    json!({"sub": spec.sub, "kernel": spec.label, "left_type": spec.ldt.to_string(), "right_type": spec.rdt.to_string(),
-        "form": lay.form.name(), "offset": lay.off, "left": format!("{a:?}"), "right": format!("{b:?}")})
+    json!({"sub": spec.sub, "replay": "binary-kernel", "kernel": spec.label, "function": kernel_name(spec.kernel), "left_type": spec.ldt.to_string(), "right_type": spec.rdt.to_string(),
+        "documented_result_type": spec.odt.to_string(), "form": lay.form.name(), "offset": lay.off, "left": format!("{a:?}"), "right": format!("{b:?}"),
+        "expected": format!("{:?}", (spec.expect)(a, b))})
 }
 
 /// Evaluate a batch of operand pairs. For AS all `rs` must be equal, for SA all `ls`.
@@ -187,6 +208,9 @@ pub fn eval_pairs<L: ArrowPrimitiveType, R: ArrowPrimitiveType, O: ArrowPrimitiv
         }
     }
     st.add(spec.sub, n as u64, nontrivial);
+    if n > 0 {
+        st.sample(spec.sub, || case_json(spec, lay, ls[n / 2], rs[n / 2]));
+    }
     let oc = |k: &str| format!("{}:{}", spec.fp, k);
     // violation fingerprint
     let vf = |k: &str| if spec.collapse { spec.fp.clone() } else { format!("{}:{}", spec.fp, k) };
@@ -214,8 +238,9 @@ pub fn eval_pairs<L: ArrowPrimitiveType, R: ArrowPrimitiveType, O: ArrowPrimitiv
             };
             match call(spec, lay, cl, cr) {
                 CallOut::Vals(vs) => {
-                    st.outcome_n(&oc("ok"), okv.len() as u64);
-                    if okv.is_empty() {
+                    if !okv.is_empty() {
+                        st.outcome_n(&oc("ok"), okv.len() as u64);
+                    } else {
                         st.outcome(&oc("empty-array-ok"));
                     }
                     for (i, got) in vs.iter().enumerate() {
@@ -291,7 +316,8 @@ pub struct UnSpec<'a, T: ArrowPrimitiveType> {
 }
 pub fn eval_unary<T: ArrowPrimitiveType>(spec: &UnSpec<T>, off: usize, xs: &[T::Native], nontrivial: u64, order: u64, st: &mut Stats) {
     let oc = |k: &str| format!("{}:{}", spec.fp, k);
-    let cj = |a: T::Native| json!({"sub": spec.sub, "kernel": spec.label, "type": spec.dt.to_string(), "offset": off, "operand": format!("{a:?}")});
+    let cj = |a: T::Native| json!({"sub": spec.sub, "replay": "unary-kernel", "kernel": spec.label, "function": if spec.kernel as usize == arrow_arith::numeric::neg as usize { "neg" } else { "neg_wrapping" },
+        "type": spec.dt.to_string(), "offset": off, "operand": format!("{a:?}"), "expected": format!("{:?}", (spec.expect)(a))});
     let run = |vals: &[T::Native]| -> CallOut<T::Native> {
         let r = catch(|| {
             let a = mk::<T>(vals, &spec.dt, off, spec.garbage);
